@@ -15,6 +15,7 @@ LETTERS = {
     "u": ["L.2.1.r.2"],
     "v": ["L.1.2.r.2"],
     "t": ["E.1", "E.2"],                # one ordinary second on both ends (window ticks)
+    "q": ["Q.1", "Q.2"],                # snapshot (used by the freshness oracle)
 }
 
 
@@ -57,6 +58,22 @@ class C07(Property):
             for sched in itertools.product(alpha, repeat=n):
                 if n == depth or sched[-1] in "xyXY" or True:
                     out.append(line_for(sched, rng, first_delivered=(rng.random() < 0.7), ini=rng.choice([1, 2])))
+        # freshness: k regular rounds, one lost message (its delivery is skipped), then regular rounds in
+        # every relative order of the two ends' cycles; marked with the snapshot letter q
+        orders = [["a", "x", "b", "y"], ["b", "y", "a", "x"], ["a", "b", "x", "y"], ["a", "b", "y", "x"], ["b", "a", "x", "y"], ["b", "a", "y", "x"]]
+        for k in range(0, 5 if thorough else 4):
+            for lost in "xy":
+                for o1 in orders:
+                    for o2 in orders:
+                        sched = []
+                        for _ in range(k):
+                            sched += o1
+                        sched += [c for c in o1 if c != lost]      # this round loses one message
+                        sched += ["q"]
+                        for _ in range(7):
+                            sched += o2
+                        sched += ["q"]
+                        out.append(line_for(sched, rng, first_delivered=True, ini=rng.choice([1, 2])))
         for _ in range(600 if thorough else 60):
             L = rng.choice([40, 120, 250])
             sched = []
@@ -89,6 +106,15 @@ class C07(Property):
             return "driver returned %d results for %d ops" % (len(outs), len(ops))
         if "panic" in outs:
             return "panic at op %d (%s)" % (outs.index("panic"), ops[outs.index("panic")])
+        # freshness after a single loss: between the two inner snapshots both ends must have moved on
+        qidx = [i for i, o in enumerate(ops) if o.startswith("Q.")]
+        if len(qidx) == 6:
+            qs = [pu.parse_q(outs[i]) for i in qidx]
+            for end, (qa, qb) in enumerate(((qs[0], qs[2]), (qs[1], qs[3])), 1):
+                ma, mb = int(qa["rot"].split("/")[0]), int(qb["rot"].split("/")[0])
+                if mb < ma + 4:
+                    return ("after one lost rotation message followed by 7 regular rounds end %d advanced its rotation message id only from "
+                            "%d to %d: a lost message must only postpone the next key change") % (end, ma, mb)
         last_probe = None
         for i, (o, r) in enumerate(zip(ops, outs)):
             if o.startswith("S."):
